@@ -19,6 +19,9 @@ pub struct ActorSpec {
     pub sup: bool,
     /// microseconds spent inside pre_start (widens the reserved-but-invisible window)
     pub pre_delay: u32,
+    /// microseconds spent inside pre_stop (widens the window between the end of the loop and the close)
+    #[serde(default)]
+    pub stop_delay: u32,
 }
 
 #[derive(Serialize, Deserialize, Clone, Debug)]
@@ -83,6 +86,7 @@ fn plain(cap: usize) -> ActorSpec {
         poststop_ok: true,
         sup: false,
         pre_delay: 0,
+        stop_delay: 0,
     }
 }
 
@@ -127,6 +131,7 @@ pub fn generate(seed: u64, class: u32) -> Program {
                 a.post_ok = !r.chance(6);
                 a.prestop_ok = !r.chance(5);
                 a.poststop_ok = !r.chance(5);
+                a.stop_delay = *r.pick(&[0, 0, 100, 400]);
                 actors.push(a);
                 base.push(i);
             }
